@@ -321,6 +321,22 @@ def case_task(states):
                 lpb = db.log_prob(torch.tensor([[0.0, 2.25], [0.5, 1.0]]))
                 if tuple(lpb.shape) != (2,) or not torch.allclose(torch.exp(lpb), torch.tensor([0.5, 0.25]), atol=1e-6):
                     fail("not_normalised", "a batch of two boxes (volumes 2 and 4): densities %s inside the boxes, expected [0.5, 0.25]" % torch.exp(lpb).tolist())
+                # a double-precision box that is narrow against its offset (single precision cannot hold its bounds)
+                lo64 = torch.tensor([1000.0, -1.0], dtype=torch.float64)
+                hi64 = torch.tensor([1000.0001, 1.0], dtype=torch.float64)
+                d64 = U.BoxUniform(low=lo64, high=hi64)
+                g64 = torch.Generator().manual_seed(3)
+                pts = lo64 + (hi64 - lo64) * torch.rand(64, 2, generator=g64, dtype=torch.float64)
+                lp64 = d64.log_prob(pts)
+                vol = float(((hi64 - lo64)).prod())
+                if tuple(lp64.shape) != (64,) or not torch.allclose(torch.exp(lp64.double()) * vol, torch.ones(64, dtype=torch.float64), atol=1e-6):
+                    fail("not_normalised", "BoxUniform([1000, -1], [1000.0001, 1]) in double precision: density x volume = %s on points inside the box (expected 1 everywhere)" % sorted(set(round(float(v), 4) for v in torch.exp(lp64.double()) * vol))[:4])
+                torch.manual_seed(5)
+                s64 = d64.sample((200,))
+                if bool((s64.double() < lo64).any() or (s64.double() > hi64).any()):
+                    fail("sampler", "BoxUniform([1000, -1], [1000.0001, 1]) in double precision: %d of 200 samples fall outside the box" % int(((s64.double() < lo64) | (s64.double() > hi64)).any(-1).sum()))
+                if not torch.allclose(d64.mean.double(), (lo64 + hi64) / 2, atol=1e-7):
+                    fail("mean", "BoxUniform([1000, -1], [1000.0001, 1]) in double precision: mean %s, centre of the box %s" % (d64.mean.tolist(), ((lo64 + hi64) / 2).tolist()))
                 d0 = U.BoxUniform(low=torch.tensor([0.0, 1.0]), high=torch.tensor([2.0, 5.0]), reinterpreted_batch_ndims=0)
                 lp0 = d0.log_prob(torch.tensor([1.0, 2.0]))
                 if tuple(lp0.shape) != (2,) or not torch.allclose(torch.exp(lp0), torch.tensor([0.5, 0.25]), atol=1e-6):
